@@ -235,7 +235,7 @@ def main(argv=None):
     t0 = time.time()
     _init_worker(pid, tier)
     w = get_world(plan)
-    targets = list(plan['targets'])
+    targets = list(plan['targets']) + (list(plan.get('thorough_targets', [])) if tier == 'thorough' else [])
     if args.only:
         targets = [t for t in targets if args.only in t]
     # ---- deductive part ----
